@@ -174,6 +174,24 @@ def audit_property_file(pid):
     return theorems, assumptions, ok, out
 
 
+def run_coqchk(pid):
+    """Independent re-check of the compiled property file and everything it depends on (thorough tier)."""
+    r = subprocess.run(
+        ["timeout", "3000", "coqchk", "-silent", "-o", *COQ_FLAGS, f"FVProps.{pid}"],
+        cwd=COQ, stdout=subprocess.PIPE, stderr=subprocess.STDOUT, text=True,
+    )
+    out = r.stdout
+    m = re.search(r"\* Axioms:(.*?)\n\s*\n\* Constants", out, flags=re.S)
+    axioms = None
+    if m:
+        body = m.group(1).strip()
+        axioms = [] if body == "<none>" else [l.strip() for l in body.splitlines() if l.strip()]
+    unsafe = [k for k in ("type-in-type", "unsafe (co)fixpoints", "positivity is assumed")
+              if re.search(re.escape(k) + r":\s*(?!<none>)\S", out)]
+    return {"ok": r.returncode == 0 and axioms is not None and not unsafe, "axioms": axioms, "unsafe": unsafe,
+            "tail": out[-600:] if r.returncode != 0 else ""}
+
+
 def _parse_nat_list(out):
     m = re.search(r"=\s*\[(.*?)\]\s*:\s*list nat", out, flags=re.S)
     if not m:
@@ -344,6 +362,11 @@ def check_property(mod, tier, seed, replay=None):
         if names <= allowed_axioms:
             discharged += 1
     proof_ok = ok_build and ok_audit and not bad and discharged == len(theorems) and len(theorems) > 0
+    chk = None
+    if tier == "thorough" and ok_build and not replay:
+        chk = run_coqchk(pid)
+        if not chk["ok"] or not set(a.split(":")[0].strip() for a in (chk["axioms"] or [])) <= allowed_axioms:
+            proof_ok = False
 
     if replay:
         data = json.loads(Path(replay).read_text())
@@ -514,6 +537,7 @@ def check_property(mod, tier, seed, replay=None):
             "samples": samples,
             "exhaustive": False,
             "impl_wall_s": round(t_impl, 2),
+            "coqchk": chk if chk is not None else "not run in the quick tier",
         },
         "assumptions": list(getattr(mod, "ASSUMPTIONS", [])),
         "wall_s": round(wall, 2),
